@@ -329,6 +329,8 @@ func (a *Alpha) primParseInputs(k Kind) []inClass {
 		} else {
 			// ordinary text that spells a missing value in other notations: a present string like any other
 			out = append(out, inClass{"the text null", "null", false})
+			// ...or a list in another notation: still one string
+			out = append(out, inClass{"text that reads as a JSON list", "[1]", false})
 		}
 		out = append(out, inClass{"only-under-a-key-of-other-letter-case", caseVariant{valid}, false})
 		return out
@@ -413,6 +415,9 @@ func (a *Alpha) sliceCfgN(elem Kind) int {
 	if !elem.Prim() {
 		return 2 * 3
 	}
+	if a.DefZero {
+		return 2 * 3 * 5
+	}
 	return 2 * 3 * 4
 }
 
@@ -448,7 +453,11 @@ func (a *Alpha) sliceCfg(n *Node, idx int, elem Kind) {
 	n.Req = idx%2 == 1
 	idx /= 2
 	if elem.Prim() {
-		n.DefClass = idx % 4 // 3: a default holding a present-but-falsy item (0, false, the zero time)
+		nd := 4 // 3: a default holding a present-but-falsy item (0, false, the zero time)
+		if a.DefZero {
+			nd = 5 // 4: a default that is an empty, non-nil list (still a default: it wins over Required and is tested)
+		}
+		n.DefClass = idx % nd
 	}
 	switch ti {
 	case 0:
